@@ -2,6 +2,7 @@
 import ast
 
 from ..model import norm, walk_own
+from ..rules_codec import codec_peewee, codec_sqlite
 from ..rules_read import last_rule, order_rule
 from ..rules_store import forward_bucket, is_param_ref, scope_memory, scope_peewee, scope_sqlite
 
@@ -24,6 +25,9 @@ def check(prog, rep):
     scope_peewee(prog, rep, methods=METHODS)
     scope_memory(prog, rep, methods=METHODS)
     forward_bucket(prog, rep)
+    # the loop merges what it reads back: the value read must be the value written (encode/decode agreement of the SQL backends)
+    codec_sqlite(prog, rep)
+    codec_peewee(prog, rep)
     rep.rule("PASS", "Bucket.replace_last / Bucket.insert hand the caller's event to the backend unchanged")
     for m, callee, idx, p in (("replace_last", "replace_last", 1, "event"), ("insert", "insert_one", 1, "events")):
         fi = prog.func(f"Bucket.{m}")
@@ -44,6 +48,9 @@ VARIANTS = [
     ("B peewee newest by id", PW, "            .where(EventModel.bucket == self.bucket_keys[bucket_id])\n            .order_by(EventModel.timestamp.desc())\n            .get()", "            .where(EventModel.bucket == self.bucket_keys[bucket_id])\n            .order_by(EventModel.id.desc())\n            .get()", ["LAST", "LAST-KEY"]),
     ("B replace_last rewrites bucketrow", SQ, "                   SET starttime = ?, endtime = ?, datastr = ?\n                   WHERE id = (", "                   SET starttime = ?, endtime = ?, datastr = ?, bucketrow = bucketrow\n                   WHERE id = (", ["LAST-SET", "SCOPE"]),
     ("B Bucket.replace_last forwards a copy with rounded duration", DS, "        return self.ds.storage_strategy.replace_last(self.bucket_id, event)", "        return self.ds.storage_strategy.replace_last(self.bucket_id, Event(**event))", "PASS"),
+    ("B sqlite replace_last drops the days of a merged duration", SQ, "    def replace_last(self, bucket_id, event):\n        starttime = event.timestamp.timestamp() * 1000000\n        endtime = starttime + (event.duration.total_seconds() * 1000000)", "    def replace_last(self, bucket_id, event):\n        starttime = event.timestamp.timestamp() * 1000000\n        endtime = starttime + (event.duration.seconds * 1000000 + event.duration.microseconds)", "CODEC"),
+    ("B peewee read path rounds durations to milliseconds", PW, '            "duration": float(self.duration),', '            "duration": round(float(self.duration), 3),', "CODEC"),
+    ("B sqlite insert_one truncates to whole microseconds", SQ, "        starttime = event.timestamp.timestamp() * 1000000\n        endtime = starttime + (event.duration.total_seconds() * 1000000)\n        datastr = json.dumps(event.data)\n        c.execute(", "        starttime = int(event.timestamp.timestamp() * 1000000)\n        endtime = starttime + int(event.duration.total_seconds() * 1000000)\n        datastr = json.dumps(event.data)\n        c.execute(", "CODEC"),
     ("OK for this property: Bucket.get ignores the limit (the newest event is still first; C03 reports it)", DS, "            self.bucket_id, limit, starttime, endtime\n        )", "            self.bucket_id, -1, starttime, endtime\n        )", "ok"),
     ("OK peewee order spelled with unary minus", PW, "            .where(EventModel.bucket == self.bucket_keys[bucket_id])\n            .order_by(EventModel.timestamp.desc())\n            .get()", "            .where(EventModel.bucket == self.bucket_keys[bucket_id])\n            .order_by(-EventModel.timestamp)\n            .get()", "ok"),
 ]
